@@ -156,9 +156,10 @@ fn session_with(rt: &tokio::runtime::Runtime, rng: &mut Rng, start: (u64, u64), 
         let (stop_tx, stop_rx) = channel::<bool>();
         let (stats_tx, stats_rx) = channel::<PollStats>();
         let rx_cell: Arc<Mutex<Option<Receiver<(ChunkIdentifier, Chunk<'static>)>>>> = Arc::new(Mutex::new(Some(rx)));
+        let stats_cell: Arc<Mutex<Receiver<PollStats>>> = Arc::new(Mutex::new(stats_rx));
 
         // consumer logic, run at request boundaries and once more after the poller returned
-        let drain = { let (log, world, rx_cell, received) = (log.clone(), world.clone(), rx_cell.clone(), received.clone()); move || -> u64 {
+        let drain = { let (log, world, rx_cell, received, stats_cell) = (log.clone(), world.clone(), rx_cell.clone(), received.clone(), stats_cell.clone()); move || -> u64 {
             let mut n = 0;
             if let Some(rx) = rx_cell.lock().expect("rx").as_ref() {
                 for (id, chunk) in rx.try_iter() {
@@ -192,6 +193,11 @@ fn session_with(rt: &tokio::runtime::Runtime, rng: &mut Rng, start: (u64, u64), 
                     }
                     n += 1;
                 }
+            }
+            // statistics after the deliveries of this drain: the model appends the NewChunk statistic in the very action that hands the chunk over
+            for st in stats_cell.lock().expect("stats").try_iter() {
+                let (kind, calls) = match st { PollStats::LatestVolumeCalls(c) => ("latest", c), PollStats::NewVolumeCalls(c) => ("newvol", c), PollStats::NewChunk(nc) => ("chunk", nc.calls), PollStats::ChunkTimings(_) => ("timings", 0) };
+                log.lock().expect("log").push(json!({"ev": "stat", "kind": kind, "calls": calls}));
             }
             n
         } };
@@ -246,7 +252,6 @@ fn session_with(rt: &tokio::runtime::Runtime, rng: &mut Rng, start: (u64, u64), 
         }
         let r = poll_chunks(SITE, tx, if with_stats { Some(stats_tx) } else { drop(stats_tx); None }, stop_rx).await;
         let _ = drain();
-        drop(stats_rx);
         log.lock().expect("log").push(json!({"ev": "return", "ok": r.is_ok(), "err": r.as_ref().err().map(|e| format!("{e:?}")).unwrap_or_default()}));
         sim.set_handler(None);
     });
@@ -345,7 +350,7 @@ pub fn run(args: &Args) {
         let mut tr = TraceOut::create(&path);
         for e in &events { tr.ev(e.clone()); }
         tr.finish();
-        index.push(json!({"trace": path, "events": events.len(), "deliveries": deliveries, "start": [start.0, start.1], "returned": events.last()}));
+        index.push(json!({"trace": path, "events": events.len(), "deliveries": deliveries, "start": [start.0, start.1], "returned": events.last(), "with_stats": k % 2 == 0}));
         if k == 0 { res.sample(json!({"session": index[0], "first_events": events.iter().filter(|e| e["ev"] != json!("probe")).take(12).collect::<Vec<_>>()})); }
     }
     let mut tr = TraceOut::create(dir);
